@@ -1869,8 +1869,10 @@ class BootstrapElectionModel(BaseElectionModel):
             # how many states have lower_q (or more) realizations with GOP victory
             lower_states = np.mean(agg_pred_margin_dist < 0, axis=1) > lower_q
 
-            potential_losses = pred_states - (~lower_states).astype(int)
-            potential_gains = upper_states.astype(int) - pred_states
+            # a contest that is not predicted for a party cannot be lost by it (and vice versa), even when
+            # the bootstrap distribution sits on the other side of zero than the point prediction
+            potential_losses = np.maximum(pred_states - (~lower_states).astype(int), 0)
+            potential_gains = np.maximum(upper_states.astype(int) - pred_states, 0)
 
         if self.called_contests is not None:
             # if there is a call, there is no uncertainty in the outcome
